@@ -686,8 +686,6 @@ package util
 //@   assigns nothing
 //@ func (Node).GetHashBytes returns (b)
 //@   assigns nothing
-//@ func (Node).GetHash returns (s)
-//@   assigns nothing
 //@ func (Node).CloneNode returns (c)
 //@   assigns nothing
 //@   ensures c != nil
@@ -707,3 +705,54 @@ package util
 //@   assigns nothing
 //@ func (OriginTrackerI).GetVersion returns (o)
 //@   assigns nothing
+
+// ================= C04 / C05: the change collector is an exact map transformer =================
+//
+// NodeHash(n, O): the hex hash of node n when the origin fields are O (node content other than the
+// origin is immutable once the node is handed to the collector).
+//@ ufun NodeHash(n Iface, O (Array Int Int)) Str
+//@ func (Node).GetHash returns (s)
+//@   assigns nothing
+//@   ensures s == NodeHash(self, heapof(OriginTracker.Origin))
+
+// Changes and Deletes never share a key (this is what Validate checks).
+//@ pred DisjCD(cc *ChangeCollector) = cc.Changes != nil && cc.Deletes != nil && (forall k string :: !(k in cc.Changes && k in cc.Deletes))
+//@ pred ChangesWF(cc *ChangeCollector) = forall k string :: k in cc.Changes ==> cc.Changes[k] != nil
+
+//@ func (*ChangeCollector).AddChange
+//@   props C04 C05
+//@   mode wrap
+//@   requires newNode != nil && cc.Changes != nil && cc.Deletes != nil && ChangesWF(cc)
+//@   assigns mapof(cc.Changes), mapof(cc.Deletes), heap(NodeChange.New)
+//@   ensures oldNode == nil || NodeHash(oldNode, heapof(OriginTracker.Origin)) != NodeHash(newNode, heapof(OriginTracker.Origin)) ==> !(NodeHash(newNode, heapof(OriginTracker.Origin)) in cc.Deletes)      #recreated-hash-leaves-deletes
+//@   ensures forall k string :: k != NodeHash(newNode, heapof(OriginTracker.Origin)) && (oldNode == nil || k != NodeHash(oldNode, heapof(OriginTracker.Origin)))
+//@      | ==> (k in cc.Changes) == old(k in cc.Changes) && cc.Changes[k] == old(cc.Changes[k]) && (k in cc.Deletes) == old(k in cc.Deletes) && cc.Deletes[k] == old(cc.Deletes[k])      #other-keys-untouched
+//@   ensures oldNode == nil ==> NodeHash(newNode, heapof(OriginTracker.Origin)) in cc.Changes
+//@      | && cc.Changes[NodeHash(newNode, heapof(OriginTracker.Origin))].New == newNode && cc.Changes[NodeHash(newNode, heapof(OriginTracker.Origin))].Old == nil      #new-node-registered
+//@   ensures oldNode != nil && !old(NodeHash(oldNode, heapof(OriginTracker.Origin)) in cc.Changes) && NodeHash(oldNode, heapof(OriginTracker.Origin)) != NodeHash(newNode, heapof(OriginTracker.Origin))
+//@      | ==> NodeHash(newNode, heapof(OriginTracker.Origin)) in cc.Changes && cc.Changes[NodeHash(newNode, heapof(OriginTracker.Origin))].New == newNode
+//@      | && cc.Changes[NodeHash(newNode, heapof(OriginTracker.Origin))].Old == oldNode && NodeHash(oldNode, heapof(OriginTracker.Origin)) in cc.Deletes
+//@      | && cc.Deletes[NodeHash(oldNode, heapof(OriginTracker.Origin))] == oldNode                                                                                     #replacement-registered-and-old-marked-dead
+//@   ensures oldNode != nil && old(NodeHash(oldNode, heapof(OriginTracker.Origin)) in cc.Changes) && NodeHash(oldNode, heapof(OriginTracker.Origin)) != NodeHash(newNode, heapof(OriginTracker.Origin))
+//@      | ==> !(NodeHash(oldNode, heapof(OriginTracker.Origin)) in cc.Changes)                                                                                            #intermediate-node-forgotten
+//@   ensures ChangesWF(cc)
+//@   ensures old(DisjCD(cc)) && (oldNode == nil || NodeHash(oldNode, heapof(OriginTracker.Origin)) != NodeHash(newNode, heapof(OriginTracker.Origin))) ==> DisjCD(cc)      #changes-and-deletes-stay-disjoint
+
+//@ func (*ChangeCollector).DeleteChange
+//@   props C04 C05
+//@   mode wrap
+//@   requires oldNode != nil && cc.Changes != nil && cc.Deletes != nil
+//@   assigns mapof(cc.Changes), mapof(cc.Deletes)
+//@   ensures old(NodeHash(oldNode, heapof(OriginTracker.Origin)) in cc.Changes) ==> !(NodeHash(oldNode, heapof(OriginTracker.Origin)) in cc.Changes)
+//@      | && (forall k string :: (k in cc.Deletes) == old(k in cc.Deletes) && cc.Deletes[k] == old(cc.Deletes[k]))                                                      #pending-node-just-forgotten
+//@   ensures !old(NodeHash(oldNode, heapof(OriginTracker.Origin)) in cc.Changes) ==> NodeHash(oldNode, heapof(OriginTracker.Origin)) in cc.Deletes
+//@      | && cc.Deletes[NodeHash(oldNode, heapof(OriginTracker.Origin))] == oldNode && (forall k string :: (k in cc.Changes) == old(k in cc.Changes) && cc.Changes[k] == old(cc.Changes[k]))      #stored-node-marked-dead
+//@   ensures forall k string :: k != NodeHash(oldNode, heapof(OriginTracker.Origin)) ==> (k in cc.Changes) == old(k in cc.Changes) && cc.Changes[k] == old(cc.Changes[k]) && (k in cc.Deletes) == old(k in cc.Deletes) && cc.Deletes[k] == old(cc.Deletes[k])      #other-keys-untouched
+//@   ensures old(DisjCD(cc)) ==> DisjCD(cc)                                                                                                                               #changes-and-deletes-stay-disjoint
+
+//@ func (*ChangeCollector).Validate returns (err)
+//@   props C05
+//@   mode wrap
+//@   requires cc.Changes != nil && cc.Deletes != nil
+//@   assigns nothing
+//@   ensures DisjCD(cc) ==> err == nil                                                                                                                                    #valid-collector-validates
